@@ -206,7 +206,7 @@ pub fn run_batch<S: Scenario>(
         }
     }
     // samples: regenerate the op lists of the first few non-trivial runs
-    if sample_runs.is_empty() {
+    if sample_runs.is_empty() && n_samples > 0 {
         sample_runs = all_first;
     }
     for i in sample_runs {
